@@ -9,8 +9,13 @@ is the sum of the squared first outputs; no panic (both `unwrap`s, every index).
 
 The declarations the function depends on (Var, VarIndex, VarMap stub, traits Tape / TracingEvaluator / BulkEvaluator with their
 spec twins, Grad stand-in) are the ones unit `shape` extracts: this unit is the text of unit `shape` plus the solver items.
-`Solver::get_jacobian` (enumerate over iter_mut, nalgebra DMatrix::get_mut, slice::fill) and `Solver::new` / `solve` (iterator
-chains, SVD) are outside the verifier subset: bounded contract `solver_bind`."""
+Contract (get_jacobian, the three-per-sample packing of C19): for every equation t the gradient evaluator is called on an
+argument matrix whose row for a Fixed parameter holds (value, 0, 0, 0) in every sample and whose row for the Free parameter
+numbered gi holds, in sample j, (cur[gi], [3j == gi], [3j+1 == gi], [3j+2 == gi]) - i.e. sample j, lane l differentiates with
+respect to the free parameter numbered 3j + l and to no other -, jacobian[(t, gi)] is lane gi % 3 of sample gi / 3 of the first
+output and result[t] is the value of sample 0; no panic (unwraps, every index, `Grad::d`'s panic arm, `j * 3 + 2`).
+
+`Solver::new` / `solve` (iterator chains, SVD) are outside the verifier subset: bounded contract `solver_bind`."""
 import re
 from lib import rsx
 from lib.rsx import ExtractError
@@ -19,7 +24,9 @@ from units import shape as shape_unit
 
 SOLVER_RS = 'fidget-solver/src/lib.rs'
 EVAL_RS = 'fidget-core/src/eval/mod.rs'
-PROPS = ['C14']
+BULK_RS = 'fidget-core/src/eval/bulk.rs'
+GRAD_RS = 'fidget-core/src/types/grad.rs'
+PROPS = ['C14', 'C19']
 
 SPEC_ITEMS = r'''
 // =================== unit solver: stand-ins and specification ===================
@@ -68,6 +75,115 @@ pub proof fn lemma_err_sum_ext<E: TracingEvaluator<Data = f32>>(tapes: Seq<E::Ta
     if n > 0 { lemma_err_sum_ext::<E>(tapes, a, b, n - 1); }
 }
 '''
+
+JAC_ITEMS = r'''
+// ---- nalgebra stand-ins (trusted): a dense matrix / vector of f32 with checked element access
+#[verifier::external_body]
+pub struct DMatrix { p: u8 }
+impl DMatrix {
+    pub uninterp spec fn rows(&self) -> nat;
+    pub uninterp spec fn cols(&self) -> nat;
+    pub uninterp spec fn at(&self, i: int, j: int) -> f32;
+    /// `Matrix::get_mut((row, column))`: None outside the shape, else the element
+    #[verifier::external_body]
+    pub fn get_mut(&mut self, ij: (usize, usize)) -> (r: Option<&mut f32>)
+        ensures r is Some <==> (ij.0 < old(self).rows() && ij.1 < old(self).cols()),
+            final(self).rows() == old(self).rows(), final(self).cols() == old(self).cols(),
+            r is Some ==> (forall|i: int, j: int| 0 <= i < old(self).rows() && 0 <= j < old(self).cols() ==> #[trigger] final(self).at(i, j) == (if i == ij.0 && j == ij.1 { *final(r->Some_0) } else { old(self).at(i, j) })),
+    { unimplemented!() }
+}
+#[verifier::external_body]
+pub struct DVector { p: u8 }
+impl DVector {
+    pub uninterp spec fn len(&self) -> nat;
+    pub uninterp spec fn at(&self, i: int) -> f32;
+}
+impl IndexSpecImpl<usize> for DVector {
+    open spec fn index_req(&self, i: &usize) -> bool { *i < self.len() }
+}
+impl std::ops::Index<usize> for DVector {
+    type Output = f32;
+    #[verifier::external_body]
+    fn index(&self, i: usize) -> (r: &f32) ensures *r == self.at(i as int) { unimplemented!() }
+}
+impl std::ops::IndexMut<usize> for DVector {
+    #[verifier::external_body]
+    fn index_mut(&mut self, i: usize) -> (r: &mut f32)
+        ensures final(self).len() == old(self).len(), forall|j: int| 0 <= j < old(self).len() ==> #[trigger] final(self).at(j) == (if j == i { *final(r) } else { old(self).at(j) })
+    { unimplemented!() }
+}
+pub assume_specification<T: Clone>[ <[T]>::fill ](s: &mut [T], value: T)
+    ensures final(s)@.len() == old(s)@.len(), forall|i: int| 0 <= i < old(s)@.len() ==> final(s)@[i] == value;
+impl<'a, T> IndexSpecImpl<usize> for BulkOutput<'a, T> {
+    open spec fn index_req(&self, i: &usize) -> bool { *i < self.data@.len() && self.data@[*i as int]@.len() >= self.len }
+}
+pub open spec fn gd_lane(g: Grad, i: int) -> f32 { if i == 0 { g.dx } else if i == 1 { g.dy } else { g.dz } }
+/// the gradient sample a parameter contributes at sample j of its row: a Free parameter numbered gi is differentiated in lane
+/// gi % 3 of sample gi / 3 and nowhere else; a Fixed parameter nowhere
+pub open spec fn gval(p: Parameter, v: Var, gi: Map<Var, usize>, cur: Seq<f32>, j: int) -> Grad {
+    match p {
+        Parameter::Free(_) => Grad { v: cur[gi[v] as int], dx: if j * 3 == gi[v] { 1.0f32 } else { 0.0f32 }, dy: if j * 3 + 1 == gi[v] { 1.0f32 } else { 0.0f32 }, dz: if j * 3 + 2 == gi[v] { 1.0f32 } else { 0.0f32 } },
+        Parameter::Fixed(f) => Grad { v: f, dx: 0.0f32, dy: 0.0f32, dz: 0.0f32 },
+    }
+}
+/// the argument matrix binds, by identity, every parameter that the tape uses, in every sample
+pub open spec fn gbound(m: Seq<Vec<Grad>>, map: VarMap, vars: Map<Var, Parameter>, gi: Map<Var, usize>, cur: Seq<f32>) -> bool {
+    forall|k: int, j: int| 0 <= k < map.entries().len() && vars.dom().contains((#[trigger] map.entries()[k]).0) && 0 <= j < m[map.entries()[k].1 as int]@.len()
+        ==> #[trigger] m[map.entries()[k].1 as int]@[j] == gval(vars[map.entries()[k].0], map.entries()[k].0, gi, cur, j)
+}
+pub open spec fn uniform(m: Seq<Vec<Grad>>, n: int) -> bool { forall|k: int| 0 <= k < m.len() ==> (#[trigger] m[k])@.len() == n }
+'''
+
+GET_JAC_SPEC = """
+        requires
+            vstd::std_specs::hash::obeys_key_model::<Var>(),
+            // established by Solver::new (not under contract)
+            forall|t: int| 0 <= t < old(self).grad_tapes@.len() ==> (#[trigger] old(self).grad_tapes@[t]).vars_spec().wf()
+                && old(self).grad_tapes@[t].vars_spec().entries().len() <= old(self).input_grad@.len() && old(self).grad_tapes@[t].noutputs() >= 1,
+            forall|v: Var| #[trigger] old(self).vars@.dom().contains(v) && old(self).vars@[v] is Free ==> old(self).grad_index@.dom().contains(v) && old(self).grad_index@[v] < cur@.len(),
+            // rows of the shared argument matrix: n >= 1 samples each, one sample per three free parameters (at least one free parameter)
+            exists|n: int| 1 <= n && n * 3 + 2 <= usize::MAX && old(self).grad_index@.len() <= n * 3 && #[trigger] uniform(old(self).input_grad@, n),
+            old(self).input_grad@.len() >= 1,
+            // "Panics if jacobian or result are an invalid size"
+            old(jacobian).rows() >= old(self).grad_tapes@.len(), old(jacobian).cols() >= old(self).grad_index@.len(), old(result).len() >= old(self).grad_tapes@.len(),
+        ensures
+            exists|mats: Seq<Seq<Vec<Grad>>>| mats.len() == old(self).grad_tapes@.len()
+                && (forall|t: int| 0 <= t < mats.len() ==> gbound(#[trigger] mats[t], old(self).grad_tapes@[t].vars_spec(), old(self).vars@, old(self).grad_index@, cur@))
+                && (forall|t: int, gi: int| 0 <= t < mats.len() && 0 <= gi < old(self).grad_index@.len() ==>
+                        #[trigger] final(jacobian).at(t, gi) == gd_lane(<F::GradSliceEval as BulkEvaluator>::bulk_spec(&old(self).grad_tapes@[t], mats[t])[0][gi / 3], gi % 3))
+                && (forall|t: int| 0 <= t < mats.len() ==> #[trigger] final(result).at(t) == <F::GradSliceEval as BulkEvaluator>::bulk_spec(&old(self).grad_tapes@[t], mats[t])[0][0].v),
+"""
+
+JAC_INV1 = """
+            invariant self.grad_tapes@ == old(self).grad_tapes@, self.vars == old(self).vars, self.grad_index@ == old(self).grad_index@, self.input_grad@.len() == old(self).input_grad@.len(),
+                uniform(self.input_grad@, n_),
+                jacobian.rows() == old(jacobian).rows(), jacobian.cols() == old(jacobian).cols(), result.len() == old(result).len(),
+                mats_.len() == ti,
+                forall|t: int| 0 <= t < mats_.len() ==> gbound(#[trigger] mats_[t], self.grad_tapes@[t].vars_spec(), self.vars@, self.grad_index@, cur@),
+                forall|t: int, gi: int| 0 <= t < mats_.len() && 0 <= gi < self.grad_index@.len() ==>
+                        #[trigger] jacobian.at(t, gi) == gd_lane(<F::GradSliceEval as BulkEvaluator>::bulk_spec(&self.grad_tapes@[t], mats_[t])[0][gi / 3], gi % 3),
+                forall|t: int| 0 <= t < mats_.len() ==> #[trigger] result.at(t) == <F::GradSliceEval as BulkEvaluator>::bulk_spec(&self.grad_tapes@[t], mats_[t])[0][0].v,
+"""
+
+JAC_INV2 = """
+                invariant self.grad_tapes@ == old(self).grad_tapes@, self.vars == old(self).vars, self.grad_index@ == old(self).grad_index@, self.input_grad@.len() == old(self).input_grad@.len(),
+                    uniform(self.input_grad@, n_),
+                    m_ == tape.vars_spec(), m_.wf(), m_.entries().len() <= self.input_grad@.len(),
+                    forall|q: int, k: int, j: int| 0 <= q < it2.index() && 0 <= k < m_.entries().len() && (#[trigger] m_.entries()[k]).0 == *(#[trigger] it2.seq()[q]).0 && 0 <= j < n_
+                        ==> #[trigger] self.input_grad@[m_.entries()[k].1 as int]@[j] == gval(*it2.seq()[q].1, *it2.seq()[q].0, self.grad_index@, cur@, j),
+"""
+
+JAC_INV3 = """
+                            invariant @ROW@@.len() == n_,
+                                forall|jj: int| 0 <= jj < @J@ ==> #[trigger] @ROW@@[jj] == gval(*p, *v, self.grad_index@, cur@, jj),
+"""
+
+JAC_INV4 = """
+                invariant jacobian.rows() == old(jacobian).rows(), jacobian.cols() == old(jacobian).cols(),
+                    forall|t: int, g: int| 0 <= t < ti && 0 <= g < self.grad_index@.len() ==>
+                        #[trigger] jacobian.at(t, g) == gd_lane(<F::GradSliceEval as BulkEvaluator>::bulk_spec(&self.grad_tapes@[t], mats_[t])[0][g / 3], g % 3),
+                    forall|g: int| 0 <= g < gi ==> #[trigger] jacobian.at(ti as int, g) == gd_lane(<F::GradSliceEval as BulkEvaluator>::bulk_spec(&self.grad_tapes@[ti as int], mats_[ti as int])[0][g / 3], g % 3),
+"""
 
 EXTERNAL_IMPLS = '''
 // outside verus!: trait impls the real derives provide (Debug for `unwrap`, Hash for HashMap keys); no run-time meaning here
@@ -159,11 +275,81 @@ def build(repo, trace):
     # R-compound: `x += e` on f32 -> `x = x + e` (the compound form crashes this Verus build)
     fn, n = re.subn(r'^(\s*)(\w+) \+= ([^;]+);', r'\1\2 = \2 + \3;', fn, flags=re.M)
     trace.fire('R-compound', n)
+    # ---------------- get_jacobian ----------------
+    i3, j3, k3 = rsx.find_fn(so, 'get_jacobian', j + 1, k - 1)
+    jf = so[rsx.line_start(so, i3):k3]
+    trace.items.append((SOLVER_RS, 'Solver::get_jacobian'))
+    # nalgebra types -> stand-ins
+    for old_t, new_t in (('jacobian: &mut nalgebra::DMatrix<f32>,', 'jacobian: &mut DMatrix,'), ('result: &mut nalgebra::DVector<f32>,', 'result: &mut DVector,')):
+        if jf.count(old_t) != 1:
+            raise ExtractError('get_jacobian: parameter %r changed' % old_t)
+        jf = jf.replace(old_t, new_t)
+    trace.drop('nalgebra::DMatrix<f32> / DVector<f32> parameters of get_jacobian: stand-in types DMatrix / DVector (rows/cols/at, get_mut, Index, IndexMut)')
+    # R-enumerate: `for (i, x) in V.iter().enumerate() {` -> `for i in 0..V.len() { let x = &V[i];`
+    m = re.search(r'^( *)for \((\w+), (\w+)\) in (self\.\w+)\.iter\(\)\.enumerate\(\) \{\n', jf, re.M)
+    if not m or len(re.findall(r'\.iter\(\)\.enumerate\(\)', jf)) != 1:
+        raise ExtractError('R-enumerate: outer loop of get_jacobian changed')
+    jf = jf[:m.start()] + '%sfor %s in 0..%s.len()   // R-enumerate\n/*@jinv1*/%s{\n%s    let %s = &%s[%s];   // R-enumerate\n%s    let ghost m_ = %s.vars_spec();\n' % (
+        m.group(1), m.group(2), m.group(4), m.group(1), m.group(1), m.group(3), m.group(4), m.group(2), m.group(1), m.group(3)) + jf[m.end():]
+    trace.fire('R-enumerate')
+    old = '            for (v, p) in self.vars {\n'
+    if jf.count(old) != 1:
+        raise ExtractError('get_jacobian: parameter loop header changed')
+    jf = jf.replace(old, '            for (v, p) in it2: self.vars.iter()   // R-intoiter\n/*@jinv2*/            {\n')
+    trace.fire('R-intoiter')
+    m = re.search(r'^( *)let (Some\(\w+\)) = ([^;{]+?) else \{\s*continue;\s*\};\n', jf, re.M)
+    if not m or len(re.findall(r'\bcontinue\b', jf)) != 1:
+        raise ExtractError('R-continue: get_jacobian has no single let-else-continue')
+    ob = jf.rfind('/*@jinv2*/            {', 0, m.start())
+    if ob < 0:
+        raise ExtractError('R-continue: let-else is not in the parameter loop')
+    ob = jf.index('{', ob + len('/*@jinv2*/'))
+    cb = rsx.match_brace(jf, ob)
+    jf = jf[:m.start()] + '%sif let %s = %s {   // R-continue\n' % (m.group(1), m.group(2), m.group(3)) + jf[m.end():cb] + '    }   // R-continue\n' + ' ' * 12 + jf[cb:]
+    trace.fire('R-continue')
+    jf, n = re.subn(r'\bself\.grad_index\[(\w+)\]', r'*self.grad_index.get(\1).unwrap()', jf)
+    if n != 1:
+        raise ExtractError('R-hashindex: expected one HashMap index in get_jacobian')
+    trace.fire('R-hashindex', n)
+    # R-itermut: `for (j, e) in ROW.iter_mut().enumerate() { *e = X; }` -> `for j in 0..ROW.len() { ROW[j] = X; }`
+    m = re.search(r'^( *)for \((\w+), (\w+)\) in (\w+)\.iter_mut\(\)\.enumerate\(\) \{\n', jf, re.M)
+    if not m:
+        raise ExtractError('R-itermut: seed loop of get_jacobian changed')
+    ob = m.end() - 2
+    cb = rsx.match_brace(jf, ob)
+    body_ = jf[ob + 1:cb]
+    el = m.group(3)
+    if len(re.findall(r'\*%s = ' % el, body_)) != 1 or len(re.findall(r'\b%s\b' % el, body_)) != 1:
+        raise ExtractError('R-itermut: the element of the seed loop is used other than by one assignment')
+    body_ = body_.replace('*%s = ' % el, '%s[%s] = ' % (m.group(4), m.group(2)))
+    jf = jf[:m.start()] + '%sfor %s in 0..%s.len()   // R-itermut\n%s%s{' % (m.group(1), m.group(2), m.group(4), JAC_INV3.lstrip('\n').replace('@ROW@', m.group(4)).replace('@J@', m.group(2)), m.group(1)) + body_ + jf[cb:]
+    trace.fire('R-itermut')
+    old = '            for gi in 0..self.grad_index.len() {\n'
+    if jf.count(old) != 1:
+        raise ExtractError('get_jacobian: read-out loop header changed')
+    jf = jf.replace(old, '            for gi in 0..self.grad_index.len()\n/*@jinv4*/            {\n')
+    # ---- BulkOutput: Index impl (real text of eval/bulk.rs) and Grad::{new, d} (real text of types/grad.rs)
+    bk = rsx.clean(open('%s/%s' % (repo, BULK_RS)).read(), trace)
+    i4, j4, k4 = rsx.find_item(bk, r"^impl<'a, T> std::ops::Index<usize> for BulkOutput<'a, T>", 0, 'impl Index for BulkOutput')
+    bidx = bk[i4:k4]
+    old = "    fn index(&self, i: usize) -> &'a Self::Output {"
+    if bidx.count(old) != 1:
+        raise ExtractError('impl Index for BulkOutput changed')
+    bidx = bidx.replace(old, "    fn index(&self, i: usize) -> (r: &'a Self::Output)\n        ensures r@ == self.data@[i as int]@.subrange(0, self.len as int)\n    {")
+    trace.items.append((BULK_RS, 'impl Index<usize> for BulkOutput'))
+    gr = rsx.clean(open('%s/%s' % (repo, GRAD_RS)).read(), trace)
+    a4, b4 = rsx.impl_block(gr, r'^impl Grad\b', 'impl Grad')
+    gfns = []
+    for name in ('new', 'd'):
+        i5, j5, k5 = rsx.find_fn(gr, name, a4, b4)
+        gfns.append(gr[rsx.line_start(gr, i5):k5])
+    trace.items.append((GRAD_RS, 'Grad::new, Grad::d'))
+    gimpl = 'impl Grad {\n' + '\n\n'.join(gfns) + '\n}\n'
     text = base
     if text.count('\nverus! {\n') != 1:
         raise ExtractError('unit shape text has no single verus! opening')
-    text = text.replace('\nverus! {\n', '\nuse std::collections::HashMap;\nverus! {\n')
-    items = par + '\n\n' + st + '\n\n' + hdr + '{\n' + fn + '\n}\n'
+    text = text.replace('\nverus! {\n', '\nuse std::collections::HashMap;\nuse vstd::std_specs::core::IndexSpecImpl;\nverus! {\n')
+    items = par + '\n\n' + st + '\n\n' + hdr + '{\n' + fn + '\n\n' + jf + '\n}\n\n' + bidx + '\n\n' + gimpl
     marker = '\n} // verus!'
     if text.count(marker) != 1:
         raise ExtractError('unit shape text has no verus! end marker')
@@ -180,7 +366,24 @@ def build(repo, trace):
                 lemma_err_sum_ext::<F::PointEval>(self.point_tapes@, args_, args_.push(self.input_point@), args_.len() as int);
                 args_ = args_.push(self.input_point@);
             }""", before=True)
+    # ---- get_jacobian: contract, invariants, ghost state
+    inj.spec('Solver::get_jacobian', None, GET_JAC_SPEC)
+    inj.replace_once('/*@jinv1*/', JAC_INV1.lstrip('\n'), 'R-enumerate')
+    inj.replace_once('/*@jinv2*/', JAC_INV2.lstrip('\n'), 'R-intoiter')
+    inj.replace_once('/*@jinv4*/', JAC_INV4.lstrip('\n'), 'R-iter-name')
+    inj.attr('Solver::get_jacobian', '#[verifier::loop_isolation(false)]')
+    inj.proof('Solver::get_jacobian', '$START', """        broadcast use vstd::std_specs::hash::group_hash_axioms;
+        let ghost mut mats_: Seq<Seq<Vec<Grad>>> = Seq::empty();
+        let ghost n_ = choose|n: int| 1 <= n && n * 3 + 2 <= usize::MAX && old(self).grad_index@.len() <= n * 3 && #[trigger] uniform(old(self).input_grad@, n);""")
+    inj.proof('Solver::get_jacobian', 'let gi = *self.grad_index.get(v).unwrap();', "                        proof { assert(self.vars@.dom().contains(*v) && self.vars@[*v] == *p); }", before=True)
+    inj.proof('Solver::get_jacobian', '            let out = self.grad_eval.eval(', """            proof { assert(gbound(self.input_grad@, m_, self.vars@, self.grad_index@, cur@)); mats_ = mats_.push(self.input_grad@); }""", before=True)
+    inj.proof('Solver::get_jacobian', 'let out = self.grad_eval.eval(tape, &self.input_grad).unwrap();', """            proof { assert(bsize(self.input_grad@) == n_); assert(out.len == n_); assert(out.data@[0]@.len() >= out.len); }""")
+    inj.spec('Grad::new', 'r: Self', '\n        ensures r == (Grad { v, dx, dy, dz })\n')
+    inj.spec('Grad::d', 'r: f32', '\n        requires i < 3\n        ensures r == gd_lane(*self, i as int)\n')
+    inj.append_items(JAC_ITEMS)
     inj.append_items(SPEC_ITEMS)
-    obls = [Obligation('solver::Solver::get_err', 'solver', 'Solver::get_err', props=PROPS),
+    obls = [Obligation('solver::Solver::get_jacobian', 'solver', 'Solver::get_jacobian', props=PROPS), Obligation('solver::Grad::new', 'solver', 'Grad::new', props=PROPS), Obligation('solver::Grad::d', 'solver', 'Grad::d', props=PROPS),
+            Obligation('solver::<BulkOutput as Index>::index', 'solver', 'BulkOutput::index', props=PROPS),
+            Obligation('solver::Solver::get_err', 'solver', 'Solver::get_err', props=PROPS),
             Obligation('solver::lemma_err_sum_ext', 'solver', 'lemma_err_sum_ext', props=PROPS, kind='lemma')]
-    return {'texts': {'base': inj.s}, 'obligations': obls, 'canary_fns': ['Solver::get_err']}
+    return {'texts': {'base': inj.s}, 'obligations': obls, 'canary_fns': ['Solver::get_err', 'Solver::get_jacobian']}
